@@ -169,8 +169,11 @@ def decide(chk, cases, obs, label):
                 out.append("known")
                 continue
             verdict = "deviation_not_listed:" + verdict
+        feats = prog_features(c["prog"])
+        if " and ( c1 in ( " in o["sql"].lower().replace('"', ""):
+            feats = sorted(set(feats) | {"written:where_subquery_inside_a_bracketed_part_of_the_condition"})
         chk.reject({"module": "Stmt", "clause": verdict.split(":")[0], "dialect": o["dialect"], "exception": o["exc"],
-                    "kind": c["prog"][0]["a"], "features": prog_features(c["prog"])}, replay)
+                    "kind": c["prog"][0]["a"], "features": feats}, replay)
         out.append(verdict)
     return out
 
